@@ -579,7 +579,16 @@ class datetime(date):
     fold = property(lambda s: s._vf_fold)
 
     def utcoffset(self):
-        return None if self._vf_tz is None else self._vf_tz.utcoffset(self)
+        if self._vf_tz is None:
+            return None
+        off = self._vf_tz.utcoffset(self)
+        if off is not None:
+            if not isinstance(off, timedelta):
+                raise TypeError("tzinfo.utcoffset() must return None or timedelta")
+            us = off._us()
+            _check(AND(us > -86400 * 10**6, us < 86400 * 10**6), ValueError,
+                   "offset must be a timedelta strictly between -timedelta(hours=24) and timedelta(hours=24)")
+        return off
 
     def dst(self):
         return None if self._vf_tz is None else self._vf_tz.dst(self)
@@ -797,6 +806,22 @@ class datetime(date):
 
     @classmethod
     def strptime(cls, s, fmt):
+        from . import shapes as _sh
+        if _sh.has_sym(s):
+            if fmt != "%Y-%j":
+                raise Unmodelled(f"strptime({fmt!r}) on symbolic digits")
+            # contract of _strptime for "%Y-%j": exactly four year digits, 1..3 day-of-year digits in 1..366
+            parts = s.split("-")
+            ok = len(parts) == 2 and len(parts[0]) == 4 and 1 <= len(parts[1]) <= 3 and all(
+                (c.isdigit() or _sh.is_pua(c)) for c in parts[0] + parts[1])
+            if not ok:
+                raise ValueError("time data %r does not match format %r" % (s, fmt))
+            year, julian = _sh.int_of_str(parts[0]), _sh.int_of_str(parts[1])
+            _check(AND(julian >= 1, julian <= 366), ValueError, "time data does not match format '%Y-%j'")
+            _check(year >= 1, ValueError, "year 0 is out of range")
+            y, m, d = _ord2ymd(_ymd2ord(year, 1, 1) + julian - 1)
+            _check(y <= MAXYEAR, ValueError, "year is out of range")
+            return cls(y, m, d)
         r = _REAL.datetime.strptime(s, fmt)
         return cls(r.year, r.month, r.day, r.hour, r.minute, r.second, r.microsecond)
 
